@@ -162,7 +162,7 @@ theorem null_yields_core (B : Nat) (hB : B = 512 ∨ B = 1024) (st : PadState) (
       (Bits.ofNatSz 0 (B - 8 * (Padder.blockAt ⟨.null, B⟩ m k).length))).toBytes).length = B / 8 := by
     simp only [toBytes_length, concat_size, bitsOfBytes_size, Bits.ofNatSz]
     rcases hB with rfl | rfl <;> omega
-  simp only [Padder.blocklen, hlen, ne_eq, not_true_eq_false, if_false, if_true, List.length_drop, Nat.sub_self, Nat.lt_irrefl, gt_iff_lt]
+  simp only [Padder.blocklen, hlen, ne_eq, not_true_eq_false, if_false, List.length_drop, Nat.sub_self, Nat.lt_irrefl, gt_iff_lt]
   refine ⟨trivial, ?_⟩
   have hn : (if m.length = 0 then 1 else (8 * m.length + B - 1) / B) = k + 1 := by
     rcases hB with rfl | rfl <;> (split <;> omega)
@@ -174,5 +174,27 @@ theorem null_yields_core (B : Nat) (hB : B = 512 ∨ B = 1024) (st : PadState) (
     rcases hB with rfl | rfl <;> (simp only []; split <;> omega)
   · simp only [List.map_cons, List.map_nil, hpi]
     rcases hB with rfl | rfl <;> (congr 1; split <;> split <;> simp only [] <;> omega)
+
+theorem trace_counters (c : Blake.Cfg) (pad : PadState) (M : List Nat) (padding : Bool) :
+    (Blake2.trace c pad M padding).map (·.2.1) =
+      ((Padder.mk .null c.blocksize).iterblocks pad M none padding).yields.map (·.2.bitcnt / 8) := by
+  apply List.ext_getElem
+  · simp [Blake2.trace]
+  · intro i h1 h2
+    simp [Blake2.trace]
+
+theorem trace_flags (c : Blake.Cfg) (pad : PadState) (M : List Nat) (padding : Bool) :
+    (Blake2.trace c pad M padding).map (·.2.2) =
+      (List.range ((Padder.mk .null c.blocksize).iterblocks pad M none padding).yields.length).map
+        (fun i => padding && i + 1 == ((Padder.mk .null c.blocksize).iterblocks pad M none padding).yields.length) := by
+  apply List.ext_getElem
+  · simp [Blake2.trace]
+  · intro i h1 h2
+    simp [Blake2.trace]
+
+theorem trace_length (c : Blake.Cfg) (pad : PadState) (M : List Nat) (padding : Bool) :
+    (Blake2.trace c pad M padding).length =
+      ((Padder.mk .null c.blocksize).iterblocks pad M none padding).yields.length := by
+  simp [Blake2.trace]
 
 end Proofs.Lemmas.BlakeTrace
